@@ -4,11 +4,18 @@
 //	H <op>;<op>;…   | <res>@<moves>#<layout>;…     a queue history
 //	S <dir><elems>  | <elems>                      heapq.Sort
 //
-// Elements are key.payload, lists are joined by ','.  dir: a ascending, d descending (by key).
-// Every history starts with heapq.New(ascending).Update(callback).  Ops:
+// Elements are key.payload, lists are joined by ','.  dir names the comparison function:
 //
-//	na nd          start over with New(cmp).Update(cb)
-//	wa<elems> wd…  start over with NewWithData(cmp, slice).Update(cb)
+//	a  cmp.Compare(a.K, b.K)            d  -cmp.Compare(a.K, b.K)
+//	A  3*(a.K-b.K) (arbitrary magnitudes) D  7*(b.K-a.K)
+//	m  cmp.Compare(a.K/4, b.K/4) (coarse: keys tie in blocks of four)
+//	M  (b.K/4-a.K/4)*2                    z  0 (everything ties)
+//	p  a.P-b.P (by payload, whatever the keys)
+//
+// Every history starts with heapq.New(a).Update(callback).  Ops:
+//
+//	n<dir>          start over with New(cmp).Update(cb)
+//	w<dir><elems>   start over with NewWithData(cmp, slice).Update(cb)
 //	a<k>.<p>       Add                       -> i<index>
 //	p              Pop                       -> v<elem> | -
 //	r<i>           Remove(i)                 -> v<elem> | - | !   (! = the documented panic for i < 0)
@@ -16,7 +23,7 @@
 //	k<i>           Peek(i)                   -> v<elem> | - | !
 //	f              Front                     -> v<elem> (zero value v0.0)
 //	s<elems>       Set(slice), then the caller's slice is overwritten with -1.-1 (aliasing poison)
-//	oa od          Reorder
+//	o<dir>         Reorder
 //	c l e          Clear, Len -> n<k>, IsEmpty -> b0|b1
 //	E<k>           Each, the callback answering false at its k-th call (0 = never) -> [elems]
 //
@@ -40,12 +47,27 @@ func (e E) String() string { return strconv.Itoa(e.K) + "." + strconv.Itoa(e.P) 
 
 func asc(a, b E) int  { return cmp.Compare(a.K, b.K) }
 func desc(a, b E) int { return -cmp.Compare(a.K, b.K) }
+
+const dirs = "adADmMzp"
+
 func cmpOf(d byte) (func(a, b E) int, bool) {
 	switch d {
 	case 'a':
 		return asc, true
 	case 'd':
 		return desc, true
+	case 'A':
+		return func(a, b E) int { return 3 * (a.K - b.K) }, true
+	case 'D':
+		return func(a, b E) int { return 7 * (b.K - a.K) }, true
+	case 'm':
+		return func(a, b E) int { return cmp.Compare(a.K/4, b.K/4) }, true
+	case 'M':
+		return func(a, b E) int { return (b.K/4 - a.K/4) * 2 }, true
+	case 'z':
+		return func(a, b E) int { return 0 }, true
+	case 'p':
+		return func(a, b E) int { return a.P - b.P }, true
 	}
 	return nil, false
 }
@@ -99,6 +121,7 @@ type session struct {
 	q     *heapq.Queue[E]
 	moves []string
 	pos   map[int]int
+	cur   func(a, b E) int // the comparison function the queue currently has
 }
 
 func (s *session) cb(e E, i int) {
@@ -140,6 +163,7 @@ func (s *session) do(op string) string {
 			return "?"
 		}
 		s.q = heapq.New(c).Update(s.cb)
+		s.cur = c
 		return "u"
 	case 'w':
 		if arg == "" {
@@ -151,6 +175,7 @@ func (s *session) do(op string) string {
 			return "?"
 		}
 		s.q = heapq.NewWithData(c, es).Update(s.cb)
+		s.cur = c
 		return "u"
 	case 'a':
 		e, ok := parseElem(arg)
@@ -221,6 +246,7 @@ func (s *session) do(op string) string {
 			return "?"
 		}
 		s.q.Reorder(c)
+		s.cur = c
 		return "u"
 	case 'c':
 		if arg != "" {
@@ -279,7 +305,7 @@ func exec(in string) string {
 		}
 		return elems(es)
 	case "H":
-		s := &session{pos: map[int]int{}}
+		s := &session{pos: map[int]int{}, cur: asc}
 		s.q = heapq.New(asc).Update(s.cb)
 		var outs []string
 		for _, op := range strings.Split(rest, ";") {
@@ -317,13 +343,58 @@ type hist struct {
 
 func newHist(g *tr.G, dup bool, keys int) *hist {
 	h := &hist{g: g, dup: dup, keys: keys, tags: map[string]bool{}, nextP: 1}
-	h.sh = &session{pos: map[int]int{}}
+	h.sh = &session{pos: map[int]int{}, cur: asc}
 	h.sh.q = heapq.New(asc).Update(h.sh.cb)
 	return h
 }
 
+// classify tags an Add / Remove by the trigger conditions of the known findings (notes/C05.md):
+// the shadow queue's layout before the op decides.
+func (h *hist) classify(s string) {
+	q := h.sh.q
+	n := q.Len()
+	at := func(i int) E { v, _ := q.Peek(i); return v }
+	switch s[0] {
+	case 'a':
+		x, ok := parseElem(s[1:])
+		if !ok {
+			return
+		}
+		switch {
+		case n <= 2 || (n+1)&n == 0:
+			if n >= 3 {
+				h.tags["add-left-spine"] = true
+			}
+		case h.sh.cur(at(n/2), x) <= 0 && h.sh.cur(at((n-1)/2), x) <= 0:
+			h.tags["add-deep-in-order"] = true
+		default:
+			h.tags["F1-trigger"] = true
+		}
+	case 'r', 'x':
+		i, ok := parseInt(s[1:])
+		if !ok {
+			return
+		}
+		if s[0] == 'x' {
+			if i, ok = h.sh.pos[i]; !ok {
+				return
+			}
+		}
+		if i > 0 && i < n-1 {
+			if h.sh.cur(at((i-1)/2), at(n-1)) <= 0 {
+				h.tags["remove-interior-no-up"] = true
+			} else {
+				h.tags["F2-trigger"] = true
+			}
+		}
+	}
+}
+
 func (h *hist) op(s string) {
 	h.ops = append(h.ops, s)
+	if s != "" {
+		h.classify(s)
+	}
 	tr.Catch(func() { h.sh.do(s) })
 	if n := h.sh.q.Len(); n > h.maxLen {
 		h.maxLen = n
@@ -347,6 +418,25 @@ func (h *hist) fresh(key int) E {
 }
 
 func (h *hist) key() int { return h.g.R.Range(1, h.keys) }
+
+// dir picks a comparison function: mostly the two plain ones, otherwise one of the six others
+func (h *hist) dir() string {
+	d := "ad"[h.g.R.Intn(2)]
+	if h.g.R.Chance(2, 5) {
+		d = dirs[h.g.R.Range(2, len(dirs)-1)]
+	}
+	switch d {
+	case 'A', 'D':
+		h.tags["cmp-magnitude"] = true
+	case 'm', 'M':
+		h.tags["cmp-coarse"] = true
+	case 'z':
+		h.tags["cmp-all-tie"] = true
+	case 'p':
+		h.tags["cmp-payload"] = true
+	}
+	return string(d)
+}
 
 func (h *hist) add(key int) { h.op("a" + h.fresh(key).String()) }
 
@@ -375,7 +465,7 @@ func (h *hist) held() []E {
 func (h *hist) phase() {
 	r := h.g.R
 	n := h.sh.q.Len()
-	switch r.Intn(22) {
+	switch r.Intn(24) {
 	case 0: // ascending run
 		k := r.Range(1, 30)
 		base := h.key()
@@ -432,7 +522,11 @@ func (h *hist) phase() {
 		h.drain()
 	case 11: // reorder mid-life
 		h.tags["reorder"] = true
-		h.op("o" + string("ad"[r.Intn(2)]))
+		d := h.dir()
+		if strings.Contains("mMz", d) && n >= 8 {
+			h.tags["reorder-to-ties"] = true
+		}
+		h.op("o" + d)
 		if r.Chance(2, 3) {
 			h.drain()
 		}
@@ -445,11 +539,11 @@ func (h *hist) phase() {
 		h.op("s" + elems(h.list(k)))
 	case 13: // NewWithData
 		h.tags["newwithdata"] = true
-		h.op("w" + string("ad"[r.Intn(2)]) + elems(h.list(r.Intn(25))))
+		h.op("w" + h.dir() + elems(h.list(r.Intn(25))))
 	case 14:
 		h.op("c")
 	case 15:
-		h.op("n" + string("ad"[r.Intn(2)]))
+		h.op("n" + h.dir())
 	case 16: // out-of-range / negative
 		h.op(tr.Pick(r, []string{"r", "k"}) + strconv.Itoa(tr.Pick(r, []int{-1, -7, n, n + 1, n + 9})))
 	case 17:
@@ -465,6 +559,23 @@ func (h *hist) phase() {
 	case 20: // remove the last or the root explicitly
 		if n > 0 {
 			h.op("r" + strconv.Itoa(tr.Pick(r, []int{0, n - 1})))
+		}
+	case 22, 23: // a Remove aimed at finding F2's trigger: the last element is below the parent of slot i
+		var cand []int
+		for i := 1; i < n-1; i++ {
+			p, _ := h.sh.q.Peek((i - 1) / 2)
+			l, _ := h.sh.q.Peek(n - 1)
+			if h.sh.cur(l, p) < 0 {
+				cand = append(cand, i)
+			}
+		}
+		if len(cand) > 0 {
+			h.tags["interior-remove"] = true
+			h.op("r" + strconv.Itoa(tr.Pick(r, cand)))
+			h.op("f")
+			if r.Chance(2, 3) {
+				h.drain()
+			}
 		}
 	case 21: // add then immediately remove through the callback position
 		e := h.fresh(h.key())
@@ -506,7 +617,7 @@ func permutations(n int, f func(p []int)) {
 }
 
 func main() {
-	tr.Main("heapq histories built in phases against a shadow queue (ascending, descending, zig-zag and random insertion runs reaching 4-6 heap levels, interior Remove by index and by reported position followed by full drains, Reorder and Set mid-life, NewWithData adoption, Clear/New, negative and out-of-range Remove/Peek, Front/Pop on empty, Each with early stop; key ranges from 3 (many duplicates) to 1000; C05 also repeats whole elements, C06 keeps payloads distinct); exhaustive small scopes: every insertion order of 1..5 then drain, every heap-ordered array of 5..7 (thorough 5..9) distinct keys through Set then Remove(i) for every i then drain, every permutation of 1..5 (thorough 1..6) through Set then Remove(i) then drain, every permutation of 1..5 through NewWithData in both directions; heapq.Sort on random slices of length 0..40 in both directions. Non-trivial: the history held at least 8 elements at some point, or a Sort of at least 2 elements.",
+	tr.Main("heapq histories built in phases against a shadow queue (ascending, descending, zig-zag and random insertion runs reaching 4-6 heap levels, interior Remove by index and by reported position followed by full drains, Reorder and Set mid-life, NewWithData adoption, Clear/New, negative and out-of-range Remove/Peek, Front/Pop on empty, Each with early stop; key ranges from 3 (many duplicates) to 1000; eight comparison functions at New/NewWithData/Reorder/Sort: by key in both directions, 3*(a-b) and 7*(b-a), key/4 in both directions (coarse), constant 0, by payload; Adds and Removes are tagged by the trigger conditions of findings F1/F2; C05 also repeats whole elements, C06 keeps payloads distinct); exhaustive small scopes: every insertion order of 1..5 then drain, every heap-ordered array of 5..7 (thorough 5..9) distinct keys through Set then Remove(i) for every i then drain, every permutation of 1..5 (thorough 1..6) through Set then Remove(i) then drain, every permutation of 1..5 through NewWithData in both directions and under the six other comparison functions with a Reorder to a coarse one; every heap-ordered array of 3..7 keys through Set then Add of every rank then drain; heapq.Sort on random slices of length 0..40 in both directions. Non-trivial: the history held at least 8 elements at some point, or a Sort of at least 2 elements.",
 		exec, func(g *tr.G) {
 			dup := g.Prop != "C06"
 			// exhaustive small scopes
@@ -556,13 +667,46 @@ func main() {
 					g.Emit("H w"+d+elems(es)+";p;a3.9;p;p;p;p;p;p", false, "exhaustive-newwithdata5", "newwithdata")
 				}
 			})
-			// random histories
-			for i := 0; i < g.Scale(6000, 150000); i++ {
+			// every heap-ordered array of 4..7 keys (2,4,..,2n) through Set, then Add of every key
+			// 1..2n+1 (every rank between, below, above and equal to the held ones), then drain: Add at
+			// every offset 4..7 with every outcome of pushUp's comparisons (finding F1's trigger and
+			// its harmless cases); the same for 3 (an offset where i/2 is the parent)
+			for n := 3; n <= 7; n++ {
+				permutations(n, func(p []int) {
+					for i := 1; i < n; i++ {
+						if p[(i-1)/2] > p[i] {
+							return
+						}
+					}
+					es := make([]E, n)
+					for i, k := range p {
+						es[i] = E{2 * k, i + 1}
+					}
+					for x := 1; x <= 2*n+1; x++ {
+						g.Emit("H s"+elems(es)+";a"+E{x, n + 1}.String()+strings.Repeat(";p", n+2), false, "exhaustive-setheap-add", "drain", "set")
+					}
+				})
+			}
+			// comparison functions other than the plain ones on small exhaustive scopes: every
+			// permutation of 1..5 through NewWithData under each, an Add, a Reorder to a coarse one, drain
+			permutations(5, func(p []int) {
+				es := make([]E, len(p))
+				for i, k := range p {
+					es[i] = E{k, 6 - i}
+				}
+				for _, d := range []string{"A", "D", "m", "M", "z", "p"} {
+					g.Emit("H w"+d+elems(es)+";p;a3.9;f;om;p;p;oz;p;p;p;p", false, "exhaustive-newwithdata5-cmps", "newwithdata", "reorder")
+				}
+			})
+			// random histories; a part of them short (small states are where index bugs show first)
+			for i := 0; i < g.Scale(5000, 26000); i++ {
 				keys := tr.Pick(g.R, []int{3, 6, 20, 100, 1000})
 				h := newHist(g, dup, keys)
 				target := g.R.Range(20, 90)
 				if g.R.Chance(1, 10) {
 					target = g.R.Range(120, 200)
+				} else if g.R.Chance(2, 5) {
+					target = g.R.Range(6, 30)
 				}
 				for len(h.ops) < target {
 					h.phase()
@@ -574,7 +718,7 @@ func main() {
 			}
 			// Sort
 			if g.Prop != "C06" {
-				for i := 0; i < g.Scale(4000, 100000); i++ {
+				for i := 0; i < g.Scale(4000, 60000); i++ {
 					n := g.R.Intn(41)
 					if g.R.Chance(1, 5) {
 						n = g.R.Intn(4)
@@ -588,7 +732,12 @@ func main() {
 					if n == 2 {
 						tags = append(tags, "sort-len2")
 					}
-					g.Emit("S "+string("ad"[g.R.Intn(2)])+elems(es), n >= 2, tags...)
+					d := "ad"[g.R.Intn(2)]
+					if g.R.Chance(1, 3) {
+						d = dirs[g.R.Range(2, len(dirs)-1)]
+						tags = append(tags, "sort-other-cmp")
+					}
+					g.Emit("S "+string(d)+elems(es), n >= 2, tags...)
 				}
 				permutations(4, func(p []int) {
 					es := make([]E, len(p))
